@@ -715,6 +715,100 @@ def o_ok_or(I, callee, args, st, n, fidx):
     return [Out("val", Enum("Ok", [p]) if is_s else Enum("Err", [e]), s) for is_s, p, s in opt_cases(I, a, st, fidx)]
 
 
+@prim("core::bool::then_some", "std::bool::then_some")
+def b_then_some(I, callee, args, st, n, fidx):
+    return [Out("val", some(args[1]) if ok else NONE, s) for ok, s in I.test_bool(args[0], st)]
+
+
+@prim("core::bool::then", "std::bool::then")
+def b_then(I, callee, args, st, n, fidx):
+    outs = []
+    for ok, s in I.test_bool(args[0], st):
+        if ok:
+            for o in apply_all(I, args[1], [], s, n, fidx):
+                outs.append(Out("val", some(o.val), o.st) if o.kind == "val" else o)
+        else:
+            outs.append(Out("val", NONE, s))
+    return outs
+
+
+@prim("std::option::Option::filter")
+def o_filter(I, callee, args, st, n, fidx):
+    a, f = args
+    outs = []
+    for is_s, p, s in opt_cases(I, a, st, fidx):
+        if not is_s:
+            outs.append(Out("val", NONE, s))
+            continue
+        for o in apply_all(I, f, [p], s, n, fidx):
+            if o.kind != "val":
+                outs.append(o)
+                continue
+            for ok, s2 in I.test_bool(o.val, o.st):
+                outs.append(Out("val", some(p) if ok else NONE, s2))
+    return outs
+
+
+@prim("std::option::Option::flatten")
+def o_flatten(I, callee, args, st, n, fidx):
+    outs = []
+    for is_s, p, s in opt_cases(I, args[0], st, fidx):
+        if not is_s:
+            outs.append(Out("val", NONE, s))
+            continue
+        for is2, p2, s2 in opt_cases(I, p, s, fidx):
+            outs.append(Out("val", some(p2) if is2 else NONE, s2))
+    return outs
+
+
+@prim("std::option::Option::or")
+def o_or(I, callee, args, st, n, fidx):
+    a, b = args
+    return [Out("val", some(p) if is_s else b, s) for is_s, p, s in opt_cases(I, a, st, fidx)]
+
+
+@prim("std::option::Option::and")
+def o_and(I, callee, args, st, n, fidx):
+    a, b = args
+    return [Out("val", b if is_s else NONE, s) for is_s, p, s in opt_cases(I, a, st, fidx)]
+
+
+@prim("std::option::Option::is_none_or")
+def o_is_none_or(I, callee, args, st, n, fidx):
+    a, f = args
+    outs = []
+    for is_s, p, s in opt_cases(I, a, st, fidx):
+        if is_s:
+            outs.extend(apply_all(I, f, [p], s, n, fidx))
+        else:
+            outs.append(Out("val", TRUE, s))
+    return outs
+
+
+@prim("std::option::Option::ok_or_else")
+def o_ok_or_else(I, callee, args, st, n, fidx):
+    a, f = args
+    outs = []
+    for is_s, p, s in opt_cases(I, a, st, fidx):
+        if is_s:
+            outs.append(Out("val", Enum("Ok", [p]), s))
+        else:
+            for o in apply_all(I, f, [], s, n, fidx):
+                outs.append(Out("val", Enum("Err", [o.val]), o.st) if o.kind == "val" else o)
+    return outs
+
+
+@prim("std::result::Result::ok")
+def r_ok(I, callee, args, st, n, fidx):
+    return [Out("val", some(p) if is_s else NONE, s) for is_s, p, s in opt_cases(I, args[0], st, fidx)]
+
+
+@prim("std::result::Result::is_ok", "std::result::Result::is_err")
+def r_is_ok(I, callee, args, st, n, fidx):
+    want = callee.endswith("is_ok")
+    return [Out("val", cbool(is_s == want), s) for is_s, p, s in opt_cases(I, args[0], st, fidx)]
+
+
 @prim("std::option::Option::copied", "std::option::Option::cloned", "std::option::Option::as_ref",
       "std::option::Option::as_mut", "std::option::Option::as_deref")
 def o_id(I, callee, args, st, n, fidx):
